@@ -27,6 +27,7 @@ type Obligation struct {
 	model        []modelVar
 	regionScript string // script re-verifying the obligation outside a known-finding region
 	replayed     bool
+	noRetry      bool
 	goal, path   string
 	regionTerm   string
 	nlines       int
